@@ -53,6 +53,9 @@ def check(run):
         from . import C03 as _C03
         b3 = run.borrow("C03", only=r"flags-set-true|name:redirect|bit:redirect|string-payloads-verbatim", why="$redirect / $redirect-rule must set IS_REDIRECT (and ALSO_BLOCK_REDIRECT)")
         run.guard("C13.via.C03.1.option-chain", cfg, lambda: (_C03.rule_chain(b3, F, cfg), _C03.rule_polarity(b3, F, cfg), _C03.rule_payloads(b3, F, cfg)))
+        b32 = run.borrow("C03", why="IS_REDIRECT / ALSO_BLOCK_REDIRECT are bits of the same mask as the request-type bits: a type bit that "
+                                    "coincides with one of them makes every redirect rule pass the type test of that request type")
+        run.guard("C13.via.C03.2.bit-layout", cfg, lambda: _C03.rule_bits(b32, F, cfg))
         from . import C07 as _C07g
         bg = run.borrow("C07", only=r"check_all", why="every matching rule of the list is collected by check_all")
         run.guard("C13.via.C07.2.gate-shape", cfg, lambda: _C07g.rule_gate_shape(bg, F, cfg))
